@@ -124,7 +124,9 @@ func prune(fetchPruneConfig lfs.FetchPruneConfig, verifyRemote, verifyUnreachabl
 	go pruneTaskGetRetainedStashed(gitscanner, retainChan, errorChan, &taskwait, sem)
 	if verifyRemote && !verifyUnreachable {
 		reachableObjects = tools.NewStringSetWithCapacity(100)
-		go pruneTaskGetReachableObjects(gitscanner, &reachableObjects, errorChan, &taskwait, sem)
+		// Reachability is a fact about the history: lfs.fetchexclude must not
+		// make a reachable object look unreachable (and so exempt from verification).
+		go pruneTaskGetReachableObjects(lfs.NewGitScanner(cfg, nil), &reachableObjects, errorChan, &taskwait, sem)
 	}
 
 	// Now collect all the retained objects, on separate wait
